@@ -116,6 +116,8 @@ SPECS = {
     'overlap': (dict(unpivot_fields=[{'name': 'x1', 'keys': {'k': 'first'}}, {'name': 'x.', 'keys': {'k': 'rest'}}]), True),
     'constant': (dict(unpivot_fields=[{'name': 'x[12]', 'keys': {'k': 'c', 'n': 7}}]), True),
     'noregex-meta': (dict(unpivot_fields=[{'name': 'x.', 'keys': {'k': 'dot'}}]), False),
+    # regex=False: key values are plain text too (backslashes and group references are not templates)
+    'noregex-backslash': (dict(unpivot_fields=[{'name': 'x1', 'keys': {'k': 'EMEA\\north'}}, {'name': 'x2', 'keys': {'k': 'a\\1b\\g<0>'}}]), False),
     'regex-meta': (dict(unpivot_fields=[{'name': 'x.', 'keys': {'k': 'any'}}]), True),
     'all': (dict(unpivot_fields=[{'name': '(x.|y)', 'keys': {'k': r'\1'}}]), True),
 }
